@@ -41,7 +41,7 @@ type vgen struct {
 	noDump    bool
 }
 
-var cleanStrings = []string{"", "a", "hello", "x y", "é", "☃", "日本", "0", "-1", "a\nb", "\n", "tab\there", "q\"uote", "back`tick", "%d"}
+var cleanStrings = []string{"", "a", "hello", "x y", "é", "☃", "日本", "0", "-1", "a\nb", "\n", "tab\there", "q\"uote", "back`tick", "%d", "nº", "menú", "x⁺"}
 var hostileStrings = []string{"‹", "›", "‹a›", "a‹b", "›x‹", "×", "‹×›", "\xe2", "\xe2\x80", "\x80\xb9", "a\xe2", "\xe2\x80\xb9\n", "\n‹\n", "a\n\n›b", "\xff", "\xc3", "?‹?"}
 
 func (g *vgen) str() string {
@@ -59,8 +59,22 @@ func (g *vgen) str() string {
 	return r.pick(cleanStrings)
 }
 
-var intVals = []int64{0, 1, -1, 7, 42, -1234, 255, 65, 0x2039, 0x203a, 1114112, math.MaxInt64, math.MinInt64, 1000001, -5}
-var floatVals = []float64{0, 1, -1, 1.5, -2.25, 3.14159, 1e21, 1e-7, 100, 123456789, math.Inf(1), math.Inf(-1), math.NaN(), math.Copysign(0, -1), 0.1}
+var intVals = []int64{0, 1, -1, 7, 42, -1234, 255, 65, 0x2039, 0x203a, 1114112, math.MaxInt64, math.MinInt64, 1000001, -5, 0xd800, 0xdfff, 0x10ffff, 0xba, 0xfffd}
+var floatVals = []float64{0, 1, -1, 1.5, -2.25, 3.14159, 1e21, 1e-7, 100, 123456789, math.Inf(1), math.Inf(-1), math.NaN(), math.Copysign(0, -1), 0.1, 1.875, 30, 0.9375, 7.5, 255, 0.5, 1e6, 1e-320}
+
+// half of the floats come from the table, half are short dyadic fractions (few hexadecimal mantissa
+// digits, every digit value: the trailing-zero padding of %#x / %#g sees all of them)
+func (g *vgen) float() float64 {
+	r := g.rng
+	if r.coin(1, 2) {
+		return floatVals[r.intn(len(floatVals))]
+	}
+	f := float64(r.intn(4096)) / float64(uint64(1)<<uint(r.intn(9)))
+	if r.coin(1, 4) {
+		f = -f
+	}
+	return f
+}
 
 func (g *vgen) leaf() *Val {
 	r := g.rng
@@ -94,7 +108,7 @@ func (g *vgen) leaf() *Val {
 			return &Val{K: "i", GoT: "int", I: 3}
 		}
 		t := r.pick([]string{"float64", "float64", "float32", "MyFloat", "SafeFloat"})
-		return &Val{K: "f", GoT: t, F: floatVals[r.intn(len(floatVals))]}
+		return &Val{K: "f", GoT: t, F: g.float()}
 	case 7, 8, 9, 10:
 		t := r.pick([]string{"string", "string", "string", "MyStr", "SvStr", "RegStr", "SafeString"})
 		return &Val{K: "s", GoT: t, S: g.str()}
@@ -172,8 +186,14 @@ func (g *vgen) val(depth int) *Val {
 	case 5:
 		n := r.intn(3)
 		m := &Val{K: "mp", GoT: "map[string]interface{}", Nil: n == 0 && r.coin(1, 2)}
+		kt := "string"
+		if r.coin(1, 3) {
+			// keys of a named string type: plain, a SafeValue, registered
+			kt = r.pick([]string{"MyStr", "SvStr", "RegStr"})
+			m.GoT, m.Nil = "map["+kt+"]interface{}", false
+		}
 		for i := 0; i < n; i++ {
-			m.Keys = append(m.Keys, &Val{K: "s", GoT: "string", S: g.str()})
+			m.Keys = append(m.Keys, &Val{K: "s", GoT: kt, S: g.str()})
 			m.Elems = append(m.Elems, g.val(depth-1))
 		}
 		return m
@@ -197,6 +217,14 @@ func (g *vgen) val(depth int) *Val {
 			{K: "s", GoT: "string", S: g.str()},
 			g.val(depth - 1), e}}
 	case 9:
+		if r.coin(1, 3) {
+			// a struct type registered as a whole, by value or behind a pointer
+			st := &Val{K: "st", GoT: "RegSt", Elems: []*Val{{K: "s", GoT: "string", S: g.str()}, {K: "i", GoT: "int", I: intVals[r.intn(len(intVals))]}}}
+			if r.coin(1, 3) {
+				return st
+			}
+			return &Val{K: "ptr", GoT: "*RegSt", Nil: r.coin(1, 6), Elems: []*Val{st}}
+		}
 		return &Val{K: "ptr", GoT: "*St2", Nil: r.coin(1, 4),
 			Elems: []*Val{{K: "st", GoT: "St2", Elems: []*Val{g.val(depth - 1), g.val(depth - 1)}}}}
 	case 10, 11:
@@ -359,7 +387,7 @@ func (g *vgen) action(depth int) *Act {
 		if g.noFloats {
 			return &Act{K: "si", N: 3}
 		}
-		return &Act{K: "sf", F: floatVals[r.intn(len(floatVals))]}
+		return &Act{K: "sf", F: g.float()}
 	case 6:
 		return &Act{K: "sr", N: g.runeVal()}
 	case 7:
@@ -409,12 +437,13 @@ func (g *vgen) action(depth int) *Act {
 }
 
 // ---------- format generator ----------
-var litPieces = []string{"", "a", " ", "x=", "\n", "‹", "›", "\xe2", "\x80\xb9", "é", "%%", ":", "‹×›"}
+// "º", "ú", "⁺" end in 0xBA, the last byte of the closing marker; "\x80\xba" is its two-byte tail
+var litPieces = []string{"", "a", " ", "x=", "\n", "‹", "›", "\xe2", "\x80\xb9", "é", "%%", ":", "‹×›", "nº", "ú", "⁺", "\x80\xba", "\xba"}
 
 func (g *vgen) literal() string {
 	r := g.rng
 	if !g.hostile {
-		return r.pick([]string{"", "a", " ", "x=", "\n", ":", "é", "%%"})
+		return r.pick([]string{"", "a", " ", "x=", "\n", ":", "é", "%%", "nº", "ú", "⁺"})
 	}
 	l := r.pick(litPieces)
 	if g.validUtf8 && !utf8.ValidString(l) {
@@ -1020,7 +1049,6 @@ func genPrinterRandom(w *bufio.Writer, rng *prng, n int, depth int, hostile bool
 		fmt.Fprintln(w, runPCase(c))
 	}
 }
-
 
 // A panic may leave a print call only when it is raised while a panic payload is being
 // printed (nested panic, as in fmt), or by the Sprintfn callback itself (the caller's own
